@@ -1,8 +1,10 @@
 """C12 — Overlap predicates agree with exact interval arithmetic."""
 import itertools
+import math
 from fractions import Fraction
 
-from ..core import Op
+from ..core import Op, jkey
+from ..leanio import InfraError
 from ..rat import rat, frac
 from .. import symtrace as st
 from ..symtrace import Sym
@@ -15,43 +17,120 @@ THEOREMS = [_T + n for n in [
     "C12_symm", "C12_iff", "C12_default_iff_common_point", "C12_abs_iff_common_subinterval",
     "C12_monotone_abs", "C12_monotone_rel", "C12_rejects", "C12_geometry_delegation",
     "C12_in_clip_iff", "C12_negative_minimum_rejected", "C12_inside_is_in",
-    "C12_timestamp_inside_is_in", "C12_touching_is_out"]]
-LEVEL_TEXT = ("Lean theorems (symmetry, iff with intersection length >= threshold, set-theoretic readings, monotonicity, "
-              "rejection, is_in_clip iff and corollaries) hold for all rational inputs of the model; every modelled function "
-              "is re-derived from the source on each run by path-exhaustive symbolic tracing and proved equal to the model "
-              "for all inputs, and additionally run differentially on exhaustive dyadic grids.")
-LEVEL_NOTE = ("Trusted: Lean kernel, symbolic tracer (ordered-field semantics, stubs for compute_bounds/Clip), shapely bounds. "
-              "Unmodelled: binary64 rounding of `stop - start` and `r * width` off the dyadic grid.")
-TECHNIQUE = "Lean 4 proof over model; symbolic-trace equality obligations regenerated from source; exhaustive-grid correspondence"
+    "C12_timestamp_inside_is_in", "C12_touching_is_out",
+    # review R-C12: readings of the threshold
+    "C12_default_is_zero_threshold", "C12_iff_measure", "C12_negative_abs_is_gap_tolerance",
+    "C12_rel_one_iff_containment", "C12_monotone_rel_needs_proper",
+    # geometry level (compute_bounds composed with the interval predicate)
+    "C12_geometry_symm", "C12_geometry_extents", "C12_geometry_defined", "C12_extent_table",
+    "C12_timestamp_overlap", "C12_time_only_frequency_overlap",
+    "C12_in_clip_geom_iff", "C12_in_clip_geom_rejects", "C12_in_clip_vs_overlap_length",
+    "C12_in_clip_is_not_overlap_length", "C12_in_clip_default_open", "C12_in_clip_default_common_point",
+    "C12_in_clip_antitone",
+    # binary64: the computation operation by operation in a rounding arithmetic
+    "isRnd_id", "isRnd_example", "relErr_id", "C12_float_id", "C12_float_symm", "C12_float_rejects",
+    "C12_float_default_exact", "C12_float_abs_one_sided", "C12_float_monotone", "C12_float_exact_on_grid",
+    "C12_float_in_clip", "C12_float_band", "C12_float_in_clip_band"]]
+LEVEL_TEXT = ("Lean theorems (symmetry, iff with intersection length >= threshold, set-theoretic / measure readings, "
+              "monotonicity, rejection; on geometries: the predicate on [least, greatest] time / frequency coordinate; "
+              "is_in_clip iff, its corollaries and its relation to the overlap length) hold for all rational inputs of the "
+              "model; the same functions in an arbitrary rounding arithmetic (binary64) are proved symmetric, monotone, "
+              "exact for the default threshold and exact outside an explicit band for every threshold.  Every modelled "
+              "function is re-derived from the source on each run by path-exhaustive symbolic tracing and proved equal to "
+              "the model for all inputs, in exact arithmetic and operation by operation in the rounding arithmetic, "
+              "and run differentially on exhaustive dyadic grids (exact) and on arbitrary floats (bit for bit).")
+LEVEL_NOTE = ("Trusted: Lean kernel, symbolic tracer (stubs for geometry_to_shapely / compute_bounds / Clip), shapely "
+              "bounds, `rnd64` = binary64 round-to-nearest-even (compared with CPython on every run).  Unmodelled: "
+              "overflow / underflow / inf / nan of binary64.")
+TECHNIQUE = ("Lean 4 proof over model; symbolic-trace equality obligations regenerated from source (exact and "
+             "rounding arithmetic); exhaustive-grid and bit-exact float correspondence")
 RULE = ("exhaustive grids of interval end points x threshold settings, random dyadic intervals, geometry pairs of "
-        "all 81 type combinations, clip/geometry placements; non-trivial = the implementation returned a boolean "
-        "(not an error); distinct = distinct (operation, input)")
+        "all 81 type combinations on boundary placements, clip/geometry placements, arbitrary binary64 inputs; "
+        "non-trivial = the implementation returned a boolean (not an error); distinct = distinct (operation, input)")
 TRUSTED = ["shapely `bounds` (min/max over the converted coordinates) inside compute_bounds",
-           "symbolic tracer stubs: compute_bounds replaced by a symbolic 4-tuple, Clip by a record of two symbols"]
-ASSUMPTIONS = ["binary64 arithmetic is exact on the dyadic grids used (sums/products of <= 20-bit dyadics)",
-               "ordered-field semantics for the symbolic tie (no rounding)"]
-NOT_COMPARED = ["error messages (only the error class)", "arbitrary (non-dyadic) floats: `stop - start >= thr` rounds, "
-                "the rational model cannot exhibit that"]
+           "symbolic tracer stubs: geometry_to_shapely (or compute_bounds) replaced by a symbolic 4-tuple, Clip by a "
+           "record of two symbols",
+           "`SE.Affinity.rnd64` is binary64 round-to-nearest-even (monitored against float(Fraction) every run)"]
+ASSUMPTIONS = ["binary64 arithmetic is exact on the dyadic grids used (sums/products of <= 20-bit dyadics); "
+               "justified by C12_float_exact_on_grid",
+               "no overflow / underflow / inf / nan in the float runs (magnitudes 1e-3 .. 1e7)"]
+NOT_COMPARED = ["error messages (only the error class)", "non-finite floats"]
+
+U53 = "1/9007199254740992"     # unit round-off of binary64
 
 
 def _f(s):
     return None if s is None else float(frac(s))
 
 
+def _num(s, how):
+    """the number a JSON rational stands for, as the Python type the case asks for"""
+    if s is None:
+        return None
+    q = frac(s)
+    if how == "int":
+        assert q.denominator == 1
+        return int(q)
+    if how == "np":
+        import numpy as np
+        return np.float64(float(q))
+    if how == "frac":
+        return q
+    return float(q)
+
+
+def _public(name):
+    """the function as users reach it: `soundevent.geometry.<name>` where exported, else the module's"""
+    import soundevent.geometry as G
+    from soundevent.geometry import operations as ops
+    fn = getattr(G, name, None)
+    return fn if fn is not None else getattr(ops, name)
+
+
+def _twice(call):
+    """the predicates are functions of their arguments: two calls on the same objects must agree"""
+    r1 = bool(call())
+    r2 = bool(call())
+    if r1 != r2:
+        return {"val": r1, "second_call": r2}
+    return {"val": r1}
+
+
 def _impl_intervals(inp):
-    from soundevent.geometry import intervals_overlap
-    r = intervals_overlap(tuple(_f(x) for x in inp["i1"]), tuple(_f(x) for x in inp["i2"]),
-                          min_absolute_overlap=_f(inp["abs"]), min_relative_overlap=_f(inp["rel"]))
-    return {"val": bool(r)}
+    fn = _public("intervals_overlap")
+    how = inp.get("as")
+    conv = "int" if how == "int" else "np" if how == "np" else "frac" if how == "frac" else "float"
+    mk = list if how == "list" else tuple
+    i1 = mk(_num(x, conv) for x in inp["i1"])
+    i2 = mk(_num(x, conv) for x in inp["i2"])
+    a, r = _num(inp["abs"], conv), _num(inp["rel"], conv)
+    if how == "pos":
+        if r is None:
+            return _twice(lambda: fn(i1, i2, a))
+        return _twice(lambda: fn(i1, i2, a, r))
+    kw = {}
+    if a is not None or inp.get("explicit_none"):
+        kw["min_absolute_overlap"] = a
+    if r is not None or inp.get("explicit_none"):
+        kw["min_relative_overlap"] = r
+    return _twice(lambda: fn(i1, i2, **kw))
 
 
 def _impl_geom(which):
     def impl(inp):
-        from soundevent.geometry import operations as geometry
-        fn = geometry.have_temporal_overlap if which == "temporal" else geometry.have_frequency_overlap
-        r = fn(gen_geom.to_data(inp["g1"]), gen_geom.to_data(inp["g2"]),
-               min_absolute_overlap=_f(inp["abs"]), min_relative_overlap=_f(inp["rel"]))
-        return {"val": bool(r)}
+        fn = _public("have_temporal_overlap" if which == "temporal" else "have_frequency_overlap")
+        g1, g2 = gen_geom.to_data(inp["g1"]), gen_geom.to_data(inp["g2"])
+        if inp.get("same_object"):
+            g2 = g1
+        a, r = _f(inp["abs"]), _f(inp["rel"])
+        if inp.get("as") == "pos":
+            return _twice(lambda: fn(g1, g2, a, r))
+        kw = {}
+        if a is not None:
+            kw["min_absolute_overlap"] = a
+        if r is not None:
+            kw["min_relative_overlap"] = r
+        return _twice(lambda: fn(g1, g2, **kw))
     return impl
 
 
@@ -67,10 +146,72 @@ def _recording():
 
 
 def _impl_in_clip(inp):
-    from soundevent import data, geometry
+    from soundevent import data
+    fn = _public("is_in_clip")
     clip = data.Clip(recording=_recording(), start_time=_f(inp["start"]), end_time=_f(inp["end"]))
-    r = geometry.is_in_clip(gen_geom.to_data(inp["g"]), clip, minimum_overlap=_f(inp["min"]))
-    return {"val": bool(r)}
+    g = gen_geom.to_data(inp["g"])
+    if inp.get("min") is None:
+        return _twice(lambda: fn(g, clip))                      # the default of the code
+    m = _num(inp["min"], "int" if inp.get("as") == "int" else "float")
+    if inp.get("as") == "pos":
+        return _twice(lambda: fn(g, clip, m))
+    return _twice(lambda: fn(g, clip, minimum_overlap=m))
+
+
+# ---------------------------------------------------------------- binary64: monitor of the property on floats
+_OK_CACHE = {}
+
+
+def _float_ok_request(opname, inp, out):
+    o = {"val": out["val"]} if isinstance(out, dict) and "val" in out and len(out) == 1 else \
+        {"raise": "x"} if isinstance(out, dict) and out.get("raise") == "invalid" else None
+    if o is None:
+        return None          # a crash / a second call that disagrees: never what the property allows
+    if opname == "is_in_clip_f64":
+        return "clip_float_ok", {"u": U53, "g": inp["g"], "start": inp["start"], "end": inp["end"],
+                                 "min": inp.get("min"), "out": o}
+    req = {"u": U53, "abs": inp["abs"], "rel": inp["rel"], "out": o}
+    if opname == "intervals_overlap_f64":
+        req.update(i1=inp["i1"], i2=inp["i2"])
+    else:
+        req.update(g1=inp["g1"], g2=inp["g2"], axis="time" if opname.startswith("temporal") else "freq")
+    return "float_ok", req
+
+
+def _float_holds(opname):
+    """`floatOk` / `clipFloatOk` (C12_float_band, C12_float_in_clip_band) on the implementation's own answer"""
+    def holds(ctx, inp, out):
+        k = opname + jkey(inp) + jkey(out)
+        ok = _OK_CACHE.get(k)
+        if ok is None:
+            rq = _float_ok_request(opname, inp, out)
+            ok = False if rq is None else bool(ctx.model(rq[0], rq[1]))
+        return None if ok else ("outside the rounding band the answer must be the exact one "
+                                "(intersection length vs threshold), errors exactly where the model rejects")
+    return holds
+
+
+def _run_float(ctx, op, inputs):
+    """pre-compute the monitor in one batch, then the ordinary bit-exact run"""
+    inputs = list(inputs)
+    reqs = {}
+    for inp in inputs:
+        try:
+            out = op.impl(inp)
+        except InfraError:
+            raise
+        except Exception as e:  # noqa: BLE001
+            from ..core import canon_exc
+            out = canon_exc(e)
+        rq = _float_ok_request(op.name, inp, out)
+        if rq is not None:
+            reqs.setdefault(rq[0], []).append((op.name + jkey(inp) + jkey(out), rq[1]))
+    for mop, lst in reqs.items():
+        outs = ctx.model_many(mop, [r for _k, r in lst])
+        for (k, _r), o in zip(lst, outs):
+            _OK_CACHE[k] = bool(o)
+    ctx.run_cases(op, inputs)
+    _OK_CACHE.clear()
 
 
 OPS = {
@@ -78,60 +219,240 @@ OPS = {
     "temporal": Op("temporal", _impl_geom("temporal")),
     "frequency": Op("frequency", _impl_geom("frequency")),
     "is_in_clip": Op("is_in_clip", _impl_in_clip),
+    # arbitrary floats: bit for bit against the model in binary64 (`… R rnd64`); what the *property* demands there
+    # is the band statement (`holds`), so a disagreement alone is a broken tie, not yet a violation
+    "intervals_overlap_f64": Op("intervals_overlap_f64", _impl_intervals, model_op="intervals_overlap64",
+                                determined=False, holds=_float_holds("intervals_overlap_f64")),
+    "temporal_f64": Op("temporal_f64", _impl_geom("temporal"), model_op="temporal64",
+                       determined=False, holds=_float_holds("temporal_f64")),
+    "frequency_f64": Op("frequency_f64", _impl_geom("frequency"), model_op="frequency64",
+                        determined=False, holds=_float_holds("frequency_f64")),
+    "is_in_clip_f64": Op("is_in_clip_f64", _impl_in_clip, model_op="is_in_clip64",
+                         determined=False, holds=_float_holds("is_in_clip_f64")),
 }
 
-THRESHOLDS = ([(None, None)] + [(a, None) for a in ["0", "1/4", "1/2", "1", "-1/4"]]
-              + [(None, r) for r in ["0", "1/4", "1/2", "1", "-1/4", "5/4"]] + [("1/4", "1/4")])
+THRESHOLDS = ([(None, None)] + [(a, None) for a in ["0", "1/4", "1/2", "1", "-1/4", "2"]]
+              + [(None, r) for r in ["0", "1/4", "1/2", "1", "-1/4", "5/4"]]
+              + [("1/4", "1/4"), ("0", "1/4"), ("1/4", "0"), ("0", "0")])
+
+
+# ---------------------------------------------------------------- tie 1: signature defaults
+def _signature_table(ctx):
+    import inspect
+    from soundevent.geometry import operations as ops
+    fn = getattr(ops, "is_in_clip", None)
+    try:
+        d = inspect.signature(fn).parameters["minimum_overlap"].default
+        if isinstance(d, bool) or not isinstance(d, (int, float)):
+            raise TypeError(f"default {d!r}")
+        ctx.obligation("default_minimum_overlap",
+                       f"example : SE.Intervals.defaultMinimumOverlap = {st.lit(d)} := by decide +kernel",
+                       {"op": "is_in_clip"})
+    except InfraError:
+        raise
+    except Exception as e:  # noqa: BLE001
+        ctx.pre_failed.append("default_minimum_overlap")
+        ctx.fail("obligation", "default_minimum_overlap", detail=f"default of minimum_overlap not extractable: {e!r}",
+                 extra={"op": "is_in_clip"})
+    fn = getattr(ops, "intervals_overlap", None)
+    for name in ("intervals_overlap", "have_temporal_overlap", "have_frequency_overlap"):
+        fn = getattr(ops, name, None)
+        try:
+            ps = inspect.signature(fn).parameters
+            ok = ps["min_absolute_overlap"].default is None and ps["min_relative_overlap"].default is None
+        except Exception:  # noqa: BLE001
+            ok = False
+        if not ok:
+            ctx.pre_failed.append("threshold_defaults_" + name)
+            ctx.fail("obligation", "threshold_defaults_" + name,
+                     detail="both thresholds must default to None (the model's `none none`)",
+                     extra={"op": {"intervals_overlap": "intervals_overlap", "have_temporal_overlap": "temporal",
+                                   "have_frequency_overlap": "frequency"}[name]})
 
 
 # ---------------------------------------------------------------- tie 1b
+# closing tactic of the ties: the shared `se_close`, then (for decision trees whose shape differs from the model's:
+# conditional expressions instead of min / max, negated comparisons) a full case split with arithmetic at the leaves
+_CLOSE = ("first\n    | se_close\n"
+          "    | (simp only [Rat.min_def, Rat.max_def]; repeat' split; all_goals (try simp); all_goals (try grind))\n"
+          "    | (simp only [Option.map]; repeat' split; all_goals (try simp); all_goals (try grind))")
 _UNF = "SE.Intervals.intervalsOverlap SE.Intervals.threshold SE.Intervals.thrOverlap"
+_UNFR = "SE.Intervals.intervalsOverlapR SE.Intervals.thresholdR"
+
+
+class SymR(Sym):
+    """a number of the rounding arithmetic: every + - * / is `rnd` of the exact result, for an
+    arbitrary function `rnd` (negation, min / max through comparisons, literals are exact)"""
+    __slots__ = ()
+    __hash__ = None
+
+    @staticmethod
+    def var(name):
+        return SymR(name, lambda env, n=name: env[n])
+
+    def _bin(self, o, sym, fn, rev=False):
+        o = Sym.lift(o)
+        a, b = (o, self) if rev else (self, o)
+        return SymR(f"(rnd ({a.e} {sym} {b.e}))", lambda env: None)
+
+    def __neg__(self):
+        return SymR(f"(-{self.e})", lambda env: None)
+
+    def __pos__(self):
+        return self
+
+
+def _sym_tie_r(ctx, name, fn, variables, ret_type, model_term, tactic, meta):
+    """Tie 1b in the rounding arithmetic: `∀ rnd vars, ext rnd vars = model rnd vars`"""
+    try:
+        res = st.trace(fn)
+        tree = st.to_tree(res)
+        body = st.tree_lean(tree, indent=4)
+    except InfraError:
+        raise
+    except Exception as e:  # noqa: BLE001
+        ctx.symbolic_ties[name] = {"error": repr(e)[:300]}
+        ctx.pre_failed.append(name)
+        ctx.fail("obligation", name, detail=f"symbolic trace (rounding arithmetic) of the current source failed: {e!r}",
+                 extra=dict(meta))
+        return
+    args = " ".join(variables)
+    src = (f"def {name} (rnd : Rat → Rat) ({args} : Rat) : Option ({ret_type}) :=\n  {body}\n"
+           # the laws of a rounding (monotone, exact at 0, sign-preserving: `IsRnd` of Proofs/C12.lean) are at
+           # hand, so that a correct fast path on a sign / an order still proves
+           f"theorem {name}_tie (rnd : Rat → Rat) (rnd_mono : ∀ x y, x ≤ y → rnd x ≤ rnd y) (rnd_zero : rnd 0 = 0)\n"
+           f"    (rnd_neg : ∀ x, x < 0 → rnd x < 0) (rnd_pos : ∀ x, 0 < x → 0 < rnd x) ({args} : Rat) :\n"
+           f"    {name} rnd {args} = {model_term} := by\n"
+           f"  {tactic}\n")
+    ctx.symbolic_ties[name] = {"paths": len(res), "arithmetic": "rounding"}
+    ctx.obligation(name, src, meta)
+
+
+class _Shape:
+    """what `geometry_to_shapely` returns, as far as `compute_bounds` may look at it"""
+    def __init__(self, b):
+        self.bounds = b
+
+
+class _Geom:      # a geometry stand-in: any attribute access beyond the bounds makes the trace fail
+    def __init__(self, b):
+        self._b = b
+
+
+class _Clip:
+    def __init__(self, cs, ce):
+        self.start_time = cs
+        self.end_time = ce
+
+
+def _bounds_patches(ops):
+    """ways of making the bounds of a stand-in geometry symbolic, most of the real code first:
+    `geometry_to_shapely` stubbed (the real `compute_bounds` is traced too), else `compute_bounds` stubbed"""
+    out = []
+    if hasattr(ops, "geometry_to_shapely"):
+        out.append(("geometry_to_shapely", lambda g: _Shape(g._b)))
+    if hasattr(ops, "compute_bounds"):
+        out.append(("compute_bounds", lambda g: g._b))
+    return out
+
+
+def _works(thunk):
+    try:
+        st.trace(thunk)
+        return True
+    except InfraError:
+        raise
+    except Exception:  # noqa: BLE001
+        return False
 
 
 def _symbolic_ties(ctx):
     import soundevent.geometry.operations as ops
-    V = ["s1", "e1", "s2", "e2", "a", "r"]
-    s1, e1, s2, e2, a, r = [Sym.var(n) for n in V]
-    modes = {"none": ({}, "none none"), "abs": ({"min_absolute_overlap": a}, "(some a) none"),
-             "rel": ({"min_relative_overlap": r}, "none (some r)"),
-             "both": ({"min_absolute_overlap": a, "min_relative_overlap": r}, "(some a) (some r)")}
-    for m, (kw, margs) in modes.items():
-        name = f"ext_overlap_{m}"
-        ctx.sym_tie(name, lambda kw=kw: ops.intervals_overlap((s1, e1), (s2, e2), **kw), V, "Bool",
-                    f"SE.Intervals.intervalsOverlap s1 e1 s2 e2 {margs}",
-                    tactic=f"unfold {name} {_UNF}\n  se_close", meta={"op": "intervals_overlap"})
-    # geometry delegation: compute_bounds stubbed by a symbolic 4-tuple -> pins which components are read
-    BV = ["st1", "lo1", "en1", "hi1", "st2", "lo2", "en2", "hi2", "a", "r"]
-    syms = {n: Sym.var(n) for n in BV}
+    for cls, tag in ((Sym, ""), (SymR, "_r")):
+        V = ["s1", "e1", "s2", "e2", "a", "r"]
+        s1, e1, s2, e2, a, r = [cls.var(n) for n in V]
+        modes = {"none": ({}, "none none"), "abs": ({"min_absolute_overlap": a}, "(some a) none"),
+                 "rel": ({"min_relative_overlap": r}, "none (some r)"),
+                 "both": ({"min_absolute_overlap": a, "min_relative_overlap": r}, "(some a) (some r)")}
 
-    class _Geom:      # a geometry stand-in: any attribute access beyond compute_bounds makes the trace fail
-        def __init__(self, b):
-            self._b = b
-    G1, G2 = _Geom(tuple(syms[n] for n in BV[0:4])), _Geom(tuple(syms[n] for n in BV[4:8]))
-    orig = ops.compute_bounds
-    ops.compute_bounds = lambda g: g._b
-    try:
-        for fname, mname in [("have_temporal_overlap", "temporalOverlap"), ("have_frequency_overlap", "frequencyOverlap")]:
-            for m, (kw, margs) in modes.items():
-                kw = {k: syms["a"] if k == "min_absolute_overlap" else syms["r"] for k in kw}
-                name = f"ext_{fname}_{m}"
-                ctx.sym_tie(name, lambda kw=kw, fname=fname: getattr(ops, fname)(G1, G2, **kw), BV, "Bool",
-                            f"SE.Intervals.{mname} ⟨st1, lo1, en1, hi1⟩ ⟨st2, lo2, en2, hi2⟩ {margs}",
-                            tactic=f"unfold {name} SE.Intervals.{mname} {_UNF}\n  se_close",
-                            meta={"op": "temporal" if "temporal" in fname else "frequency"})
-        # is_in_clip
-        CV = ["st1", "lo1", "en1", "hi1", "cs", "ce", "m"]
-        cs, ce, mm = Sym.var("cs"), Sym.var("ce"), Sym.var("m")
+        def tie(name, thunk, variables, model_exact, model_r, unf_exact, unf_r, op):
+            if cls is Sym:
+                ctx.sym_tie(name, thunk, variables, "Bool", model_exact,
+                            tactic=f"unfold {name} {unf_exact}\n  {_CLOSE}", meta={"op": op})
+            else:
+                _sym_tie_r(ctx, name, thunk, variables, "Bool", model_r,
+                           f"unfold {name} {unf_r}\n  {_CLOSE}", {"op": op + "_f64"})
 
-        class _Clip:
-            start_time = cs
-            end_time = ce
-        name = "ext_is_in_clip"
-        ctx.sym_tie(name, lambda: ops.is_in_clip(G1, _Clip(), minimum_overlap=mm), CV, "Bool",
-                    "SE.Intervals.isInClip ⟨st1, lo1, en1, hi1⟩ cs ce m",
-                    tactic=f"unfold {name} SE.Intervals.isInClip\n  se_close", meta={"op": "is_in_clip"})
-    finally:
-        ops.compute_bounds = orig
+        for m, (kw, margs) in modes.items():
+            tie(f"ext_overlap_{m}{tag}", lambda kw=kw: ops.intervals_overlap((s1, e1), (s2, e2), **kw), V,
+                f"SE.Intervals.intervalsOverlap s1 e1 s2 e2 {margs}",
+                f"SE.Intervals.intervalsOverlapR rnd s1 e1 s2 e2 {margs}", _UNF, _UNFR, "intervals_overlap")
+        # the thresholds passed by position: third = absolute, fourth = relative
+        tie(f"ext_overlap_positional{tag}", lambda: ops.intervals_overlap((s1, e1), (s2, e2), a), V,
+            "SE.Intervals.intervalsOverlap s1 e1 s2 e2 (some a) none",
+            "SE.Intervals.intervalsOverlapR rnd s1 e1 s2 e2 (some a) none", _UNF, _UNFR, "intervals_overlap")
+        tie(f"ext_overlap_positional_rel{tag}", lambda: ops.intervals_overlap((s1, e1), (s2, e2), None, r), V,
+            "SE.Intervals.intervalsOverlap s1 e1 s2 e2 none (some r)",
+            "SE.Intervals.intervalsOverlapR rnd s1 e1 s2 e2 none (some r)", _UNF, _UNFR, "intervals_overlap")
+
+        # geometry level: the bounds of a stand-in geometry are a symbolic 4-tuple -> pins which components are read
+        BV = ["st1", "lo1", "en1", "hi1", "st2", "lo2", "en2", "hi2", "a", "r"]
+        syms = {n: cls.var(n) for n in BV}
+        G1, G2 = _Geom(tuple(syms[n] for n in BV[0:4])), _Geom(tuple(syms[n] for n in BV[4:8]))
+        cs, ce, mm = cls.var("cs"), cls.var("ce"), cls.var("m")
+        clip = _Clip(cs, ce)
+        patched = None
+        for attr, stub in _bounds_patches(ops):
+            orig = getattr(ops, attr)
+            setattr(ops, attr, stub)
+            try:
+                if _works(lambda: ops.have_temporal_overlap(G1, G2)) and _works(lambda: ops.is_in_clip(G1, clip)):
+                    patched = (attr, orig)
+                    break
+            finally:
+                if patched is None:
+                    setattr(ops, attr, orig)
+        if patched is None:          # neither stub fits: stub compute_bounds anyway, the traces fail one by one
+            patched = ("compute_bounds", getattr(ops, "compute_bounds", None))
+            ops.compute_bounds = lambda g: g._b
+        ctx.tally("symbolic bounds stub: " + patched[0])
+        try:
+            for fname, mname, comp in [("have_temporal_overlap", "temporalOverlap", "st1 en1 st2 en2"),
+                                       ("have_frequency_overlap", "frequencyOverlap", "lo1 hi1 lo2 hi2")]:
+                opn = "temporal" if "temporal" in fname else "frequency"
+                for m, (kw, margs) in modes.items():
+                    kw = {k: syms["a"] if k == "min_absolute_overlap" else syms["r"] for k in kw}
+                    tie(f"ext_{fname}_{m}{tag}", lambda kw=kw, fname=fname: getattr(ops, fname)(G1, G2, **kw), BV,
+                        f"SE.Intervals.{mname} ⟨st1, lo1, en1, hi1⟩ ⟨st2, lo2, en2, hi2⟩ {margs}",
+                        f"SE.Intervals.intervalsOverlapR rnd {comp} {margs}",
+                        f"SE.Intervals.{mname} {_UNF}", _UNFR, opn)
+                tie(f"ext_{fname}_positional{tag}",
+                    lambda fname=fname: getattr(ops, fname)(G1, G2, syms["a"]), BV,
+                    f"SE.Intervals.{mname} ⟨st1, lo1, en1, hi1⟩ ⟨st2, lo2, en2, hi2⟩ (some a) none",
+                    f"SE.Intervals.intervalsOverlapR rnd {comp} (some a) none",
+                    f"SE.Intervals.{mname} {_UNF}", _UNFR, opn)
+            CV = ["st1", "lo1", "en1", "hi1", "cs", "ce", "m"]
+            tie(f"ext_is_in_clip{tag}", lambda: ops.is_in_clip(G1, clip, minimum_overlap=mm), CV,
+                "SE.Intervals.isInClip ⟨st1, lo1, en1, hi1⟩ cs ce m",
+                "SE.Intervals.isInClipR rnd ⟨st1, lo1, en1, hi1⟩ cs ce m",
+                "SE.Intervals.isInClip", "SE.Intervals.isInClipR", "is_in_clip")
+            tie(f"ext_is_in_clip_positional{tag}", lambda: ops.is_in_clip(G1, clip, mm), CV,
+                "SE.Intervals.isInClip ⟨st1, lo1, en1, hi1⟩ cs ce m",
+                "SE.Intervals.isInClipR rnd ⟨st1, lo1, en1, hi1⟩ cs ce m",
+                "SE.Intervals.isInClip", "SE.Intervals.isInClipR", "is_in_clip")
+            tie(f"ext_is_in_clip_default{tag}", lambda: ops.is_in_clip(G1, clip), CV[:6],
+                "SE.Intervals.isInClip ⟨st1, lo1, en1, hi1⟩ cs ce SE.Intervals.defaultMinimumOverlap",
+                "SE.Intervals.isInClipR rnd ⟨st1, lo1, en1, hi1⟩ cs ce SE.Intervals.defaultMinimumOverlap",
+                "SE.Intervals.isInClip SE.Intervals.defaultMinimumOverlap",
+                "SE.Intervals.isInClipR SE.Intervals.defaultMinimumOverlap", "is_in_clip")
+        finally:
+            if patched[1] is not None:
+                setattr(ops, patched[0], patched[1])
+            else:
+                try:
+                    delattr(ops, patched[0])
+                except AttributeError:
+                    pass
 
 
 # ---------------------------------------------------------------- tie 2 generators
@@ -140,6 +461,22 @@ def _grid_interval_cases(step_den, top=2):
     for s1, e1, s2, e2 in itertools.product(vals, repeat=4):
         for a, r in THRESHOLDS:
             yield {"i1": [s1, e1], "i2": [s2, e2], "abs": a, "rel": r}
+
+
+def _typed_interval_cases():
+    """the same predicate for ints, numpy scalars, Fractions, list intervals, positional and explicit-None
+    thresholds (integers 0..3, all 4-tuples; thresholds incl. the falsy 0)"""
+    vals = [str(i) for i in range(4)]
+    thr = [(None, None), ("0", None), ("1", None), ("2", None), (None, "0"), (None, "1"), ("-1", None),
+           (None, "-1"), (None, "2"), ("0", "0"), ("1", "1"), ("0", "1"), ("1", "0")]
+    for s1, e1, s2, e2 in itertools.product(vals, repeat=4):
+        for a, r in thr:
+            for how in ("int", "np", "frac", "list", "pos"):
+                if how == "pos" and a is None and r is None:
+                    continue
+                yield {"i1": [s1, e1], "i2": [s2, e2], "abs": a, "rel": r, "as": how}
+            if a is None or r is None:
+                yield {"i1": [s1, e1], "i2": [s2, e2], "abs": a, "rel": r, "explicit_none": True}
 
 
 def _random_interval_cases(rng, n):
@@ -156,9 +493,16 @@ def _random_interval_cases(rng, n):
         a = r = None
         if mode in ("abs", "both"):
             a = rat(Fraction(rng.randint(-q, hi * q), q))
+            if rng.random() < 0.3:      # exactly the intersection length
+                a = rat(min(pts[1], pts[3]) - max(pts[0], pts[2]))
         if mode in ("rel", "both"):
             r = rat(Fraction(rng.randint(-2, q + 2), q))
-        yield {"i1": [rat(pts[0]), rat(pts[1])], "i2": [rat(pts[2]), rat(pts[3])], "abs": a, "rel": r}
+        c = {"i1": [rat(pts[0]), rat(pts[1])], "i2": [rat(pts[2]), rat(pts[3])], "abs": a, "rel": r}
+        if rng.random() < 0.1:
+            c["as"] = rng.choice(["list", "np", "pos", "frac"])
+            if c["as"] == "pos" and a is None and r is None:
+                del c["as"]
+        yield c
 
 
 def _geom_pair_cases(rng, reps):
@@ -170,8 +514,71 @@ def _geom_pair_cases(rng, reps):
                        "g2": gen_geom.gen_geometry(rng, t2, tmax=4, fmax=4, k=2), "abs": a, "rel": r}
 
 
+def geom_with_extent(ty, s, e, lo, hi):
+    """a valid geometry of type `ty` whose time extent is [s, e] and whose frequency extent is [lo, hi]
+    (time-only types: the band is the whole band; point-like types: the lower corner); None if impossible"""
+    s, e, lo, hi = (Fraction(x) for x in (s, e, lo, hi))
+    mt, mf = (s + e) / 2, (lo + hi) / 2
+    if ty == "TimeStamp":
+        c = s
+    elif ty == "TimeInterval":
+        c = [s, e]
+    elif ty == "Point":
+        c = [s, lo]
+    elif ty == "BoundingBox":
+        c = [s, lo, e, hi]
+    elif ty == "LineString":
+        c = [[s, hi], [mt, lo], [e, mf]]
+    elif ty == "MultiPoint":
+        c = [[e, lo], [s, hi], [mt, mf]]
+    elif ty == "MultiLineString":
+        if s == e:
+            return None
+        c = [[[s, mf], [mt, hi]], [[mt, lo], [e, mf]]]
+    elif ty == "Polygon":
+        if s == e or lo == hi:
+            return None
+        c = [[[s, lo], [e, mf], [mt, hi], [s, lo]]]
+    elif ty == "MultiPolygon":
+        if s == e or lo == hi:
+            return None
+        q = (e - s) / 4
+        c = [[[[s, lo], [s + q, lo], [s, mf], [s, lo]]], [[[e, hi], [e - q, hi], [e, mf], [e, hi]]]]
+    else:
+        return None
+    return {"type": ty, "coordinates": gen_geom._enc(c)}
+
+
+# relations of two extents on a line: (s1, e1, s2, e2)
+_RELATIONS = [(0, 1, 2, 3), (0, 1, 1, 2), (0, 2, 1, 3), (0, 3, 1, 2), (0, 2, 0, 2), (0, 2, 0, 1), (0, 2, 1, 2),
+              (1, 1, 1, 2), (1, 1, 0, 2), (1, 1, 1, 1), (0, 1, "3/2", 2), (0, "3/2", 1, 2)]
+
+
+def _geom_boundary_cases(rng, thr_per_case):
+    """all 81 type pairs on every relation of the extents (disjoint, touching, partial, nested, equal, sharing an
+    end, degenerate), the relation applied to the time axis and (independently chosen) to the frequency axis"""
+    for t1 in gen_geom.TYPES:
+        for t2 in gen_geom.TYPES:
+            for rel_t in _RELATIONS:
+                rel_f = rng.choice(_RELATIONS)
+                g1 = geom_with_extent(t1, rel_t[0], rel_t[1], rel_f[0], rel_f[1])
+                g2 = geom_with_extent(t2, rel_t[2], rel_t[3], rel_f[2], rel_f[3])
+                for order in ((g1, g2), (g2, g1)):
+                    if order[0] is None or order[1] is None:
+                        continue
+                    for a, r in rng.sample(THRESHOLDS, thr_per_case) + [(None, None)]:
+                        yield {"g1": order[0], "g2": order[1], "abs": a, "rel": r}
+    # the same object as both arguments, positional thresholds
+    for t in gen_geom.TYPES:
+        g = geom_with_extent(t, 1, 2, 1, 2)
+        for a, r in [(None, None), ("1", None), (None, "1"), ("2", None)]:
+            yield {"g1": g, "g2": g, "abs": a, "rel": r, "same_object": True}
+        yield {"g1": g, "g2": geom_with_extent("BoundingBox", 0, "3/2", 0, "3/2"), "abs": "1/2", "rel": None, "as": "pos"}
+        yield {"g1": g, "g2": geom_with_extent("BoundingBox", 0, "3/2", 0, "3/2"), "abs": None, "rel": "1/2", "as": "pos"}
+
+
 def _clip_cases(rng, reps):
-    mins = ["0", "0", "1/4", "1", "-1/4"]
+    mins = ["0", "0", "1/4", "1", "-1/4", None]
     for ty in gen_geom.TYPES:
         for _ in range(reps):
             g = gen_geom.gen_geometry(rng, ty, tmax=4, fmax=4, k=2)
@@ -184,17 +591,145 @@ def _clip_cases(rng, reps):
     vals = [Fraction(i, 2) for i in range(0, 7)]
     for cs, ce in itertools.combinations_with_replacement(vals, 2):
         for t in vals:
-            for m in ["0", "1/2"]:
+            for m in ["0", "1/2", None]:
                 yield {"g": {"type": "TimeStamp", "coordinates": rat(t)}, "start": rat(cs), "end": rat(ce), "min": m}
         for s, e in itertools.combinations_with_replacement(vals, 2):
             yield {"g": {"type": "TimeInterval", "coordinates": [rat(s), rat(e)]},
-                   "start": rat(cs), "end": rat(ce), "min": rng.choice(["0", "1/2", "1"])}
+                   "start": rat(cs), "end": rat(ce), "min": rng.choice(["0", "1/2", "1", None])}
+    # every type on every placement relative to the clip [1, 2] (and the degenerate clip [1, 1])
+    ext = [(0, "1/2"), (0, 1), (0, "3/2"), (1, "3/2"), (1, 2), ("5/4", "7/4"), ("3/2", 2), ("3/2", 3), (2, 3), ("5/2", 3),
+           (0, 3), (1, 1), ("3/2", "3/2"), (2, 2), (0, 0)]
+    for ty in gen_geom.TYPES:
+        for s, e in ext:
+            g = geom_with_extent(ty, s, e, 1, 2)
+            if g is None:
+                continue
+            for cs, ce in ((1, 2), (1, 1)):
+                for m, how in ((None, None), ("0", None), ("0", "int"), ("1/4", None), ("1/2", "pos"), ("1", "int"),
+                               ("-1", "int"), ("-1/4", None)):
+                    c = {"g": g, "start": rat(cs), "end": rat(ce), "min": m}
+                    if how:
+                        c["as"] = how
+                    yield c
+
+
+# ---------------------------------------------------------------- arbitrary binary64 inputs
+def _ulp_shift(x, k):
+    for _ in range(abs(k)):
+        x = math.nextafter(x, math.inf if k > 0 else -math.inf)
+    return x
+
+
+_FRACTIONS = [0.1, 0.2, 0.25, 0.3, 1 / 3, 0.5, 0.6, 0.7, 0.9, 1.0, 0.0]
+
+
+def _float_interval_cases(rng, n):
+    for i in range(n):
+        scale = rng.choice([1.0, 1.0, 10.0, 1e3, 1e-2])
+        kind = rng.random()
+        s1 = rng.uniform(0, 5) * scale
+        e1 = s1 + rng.uniform(0, 3) * scale
+        if kind < 0.25:
+            s2, e2 = rng.uniform(0, 5) * scale, rng.uniform(0, 8) * scale
+        else:
+            s2 = rng.uniform(s1, e1)
+            e2 = s2 + rng.uniform(0, 3) * scale
+        if rng.random() < 0.1:
+            s2 = e1
+        x = min(e1, e2) - max(s1, s2)
+        mode = rng.choice(["none", "abs", "abs", "rel", "rel", "rel", "both"])
+        a = r = None
+        if mode in ("abs", "both"):
+            a = rng.choice([x, _ulp_shift(x, 1), _ulp_shift(x, -1), 0.1 * scale, rng.uniform(-1, 3) * scale, 0.0])
+        if mode in ("rel", "both"):
+            r = rng.choice(_FRACTIONS + [rng.random(), -0.1, 1.0000001, _ulp_shift(1.0, 1), _ulp_shift(0.0, -1)])
+            if mode == "rel" and 0 <= r <= 1 and rng.random() < 0.6:
+                # put the second interval so that the intersection is (nearly) r times the shorter width
+                w = e1 - s1
+                s2 = _ulp_shift(e1 - r * w, rng.choice([-2, -1, 0, 0, 1, 2]))
+                e2 = s2 + w * rng.choice([1.0, 1.5, 3.0])
+        c = {"i1": [rat(s1), rat(e1)], "i2": [rat(s2), rat(e2)], "abs": None if a is None else rat(a),
+             "rel": None if r is None else rat(r)}
+        if rng.random() < 0.5:
+            c["i1"], c["i2"] = c["i2"], c["i1"]
+        yield c
+
+
+_FLOAT_TYPES = ["TimeStamp", "TimeInterval", "Point", "BoundingBox", "LineString", "MultiPoint", "MultiLineString",
+                "Polygon", "MultiPolygon"]
+
+
+def _float_geom(rng, ty, s=None, e=None):
+    s = rng.uniform(0, 5) if s is None else s
+    e = s + rng.uniform(0.01, 3) if e is None else e
+    lo = rng.uniform(0, 4000)
+    hi = lo + rng.uniform(1, 4000)
+    g = geom_with_extent(ty, Fraction(s), Fraction(e), Fraction(lo), Fraction(hi))
+    # the mid points of `geom_with_extent` are exact rationals: round every coordinate to binary64
+    def fl(c):
+        return [fl(x) for x in c] if isinstance(c, list) else rat(float(frac(c)))
+    return {"type": ty, "coordinates": fl(g["coordinates"])}
+
+
+def _float_geom_cases(rng, n):
+    for _ in range(n):
+        t1, t2 = rng.choice(_FLOAT_TYPES), rng.choice(_FLOAT_TYPES)
+        s1 = rng.uniform(0, 5)
+        e1 = s1 + rng.uniform(0.01, 3)
+        s2 = rng.choice([rng.uniform(0, 6), rng.uniform(s1, e1)])
+        e2 = s2 + rng.uniform(0.01, 3)
+        g1, g2 = _float_geom(rng, t1, s=s1, e=e1), _float_geom(rng, t2, s=s2, e=e2)
+        x = min(e1 if t1 not in ("TimeStamp", "Point") else s1, e2 if t2 not in ("TimeStamp", "Point") else s2) - max(s1, s2)
+        mode = rng.choice(["none", "abs", "rel", "rel", "both"])
+        a = r = None
+        if mode in ("abs", "both"):
+            a = rng.choice([0.1, 0.0, rng.uniform(0, 2), rng.uniform(0, 3000), x, _ulp_shift(x, 1), _ulp_shift(x, -1)])
+        if mode in ("rel", "both"):
+            r = rng.choice(_FRACTIONS + [rng.random(), -0.1, 1.1])
+        yield {"g1": g1, "g2": g2, "abs": None if a is None else rat(a), "rel": None if r is None else rat(r)}
+
+
+def _float_clip_cases(rng, n):
+    for _ in range(n):
+        ty = rng.choice(_FLOAT_TYPES)
+        cs = rng.uniform(0, 5)
+        ce = cs + rng.uniform(0, 5)
+        m = rng.choice([0.1, 0.3, 0.7, rng.uniform(0, 2), 0.0, -0.1, None])
+        mm = 0.0 if m is None else m
+        # geometry edges on (or one ulp off) the rounded clip edges
+        s = rng.choice([rng.uniform(0, 8), _ulp_shift(ce - mm, rng.choice([-1, 0, 1]))])
+        e = rng.choice([s + rng.uniform(0.01, 3), _ulp_shift(cs + mm, rng.choice([-1, 0, 1]))])
+        if s < 0 or e <= s:
+            s, e = rng.uniform(0, 4), None
+        yield {"g": _float_geom(rng, ty, s=s, e=e), "start": rat(cs), "end": rat(ce), "min": None if m is None else rat(m)}
+
+
+def _rnd64_contract(ctx):
+    """the driver's `rnd64` is binary64 round-to-nearest-even (compared with CPython's correctly rounded
+    float(Fraction)) and has relative error <= 2^-53 (the hypothesis `RelErr` of C12_float_band) on the samples"""
+    rng = ctx.rng
+    xs = []
+    for _ in range(ctx.budget(100, 1000)):
+        a, b = rng.uniform(0, 10), rng.uniform(1e-3, 5000)
+        xs += [Fraction(a) + Fraction(b), Fraction(a) - Fraction(b), Fraction(a) * Fraction(b),
+               Fraction(rng.randint(-10 ** 6, 10 ** 6), rng.randint(1, 10 ** 6))]
+    xs += [Fraction(2 ** 53 + 1, 2 ** 60), Fraction(2 ** 53 + 3, 2 ** 60), Fraction(-(2 ** 53 + 1), 2 ** 10), Fraction(1),
+           Fraction(0), Fraction(1, 3), Fraction(5_000_000)]
+    outs = ctx.model_many("rnd64", [{"x": rat(x)} for x in xs])
+    u = frac(U53)
+    for x, mo in zip(xs, outs):
+        y = frac(mo["val"])
+        ctx.contract("rnd64 = binary64 round-to-nearest-even, relative error <= 2^-53",
+                     y == Fraction(float(x)) and abs(y - x) <= u * abs(x), None, {"x": rat(x), "rnd64": mo["val"]})
 
 
 def run(ctx):
+    ctx.stage("signature-table", _signature_table, ctx)
     ctx.stage("symbolic-ties", _symbolic_ties, ctx)
     ctx.stage("discharge", ctx.discharge, ["SoundeventModel.Intervals", "SoundeventModel.Tactics"])
     ctx.stage("correspondence", _correspondence, ctx)
+    ctx.stage("rnd64-contract", _rnd64_contract, ctx)
+    ctx.stage("binary64", _floats, ctx)
 
 
 def _correspondence(ctx):
@@ -202,20 +737,40 @@ def _correspondence(ctx):
     den = 4 if ctx.thorough() else 2
     ctx.run_cases(OPS["intervals_overlap"], _grid_interval_cases(den))
     ctx.exhaustive["intervals_overlap grid"] = f"end points i/{den}, i=0..{2 * den}, all 4-tuples x {len(THRESHOLDS)} threshold settings"
+    ctx.run_cases(OPS["intervals_overlap"], _typed_interval_cases())
+    ctx.exhaustive["intervals_overlap argument types"] = ("end points 0..3, all 4-tuples x 13 threshold settings x "
+                                                          "{int, numpy.float64, Fraction, list intervals, positional, explicit None}")
     ctx.run_cases(OPS["intervals_overlap"], _random_interval_cases(ctx.rng, ctx.budget(4000, 60000)))
-    pairs = list(_geom_pair_cases(ctx.rng, ctx.budget(4, 40)))
+    pairs = list(_geom_pair_cases(ctx.rng, ctx.budget(3, 40)))
+    pairs += list(_geom_boundary_cases(ctx.rng, ctx.budget(2, 6)))
+    ctx.exhaustive["geometry pairs"] = "81 type pairs x 12 extent relations x both orders (time axis; frequency relation drawn)"
     ctx.run_cases(OPS["temporal"], pairs)
     ctx.run_cases(OPS["frequency"], pairs)
     ctx.run_cases(OPS["is_in_clip"], _clip_cases(ctx.rng, ctx.budget(40, 600)))
-    ctx.exhaustive["is_in_clip grid"] = "clip ends and time stamps / intervals on i/2, i=0..6, all placements"
+    ctx.exhaustive["is_in_clip grid"] = ("clip ends and time stamps / intervals on i/2, i=0..6, all placements; all 9 types "
+                                         "x 15 placements x 8 minimum settings incl. the default")
+
+
+def _floats(ctx):
+    _run_float(ctx, OPS["intervals_overlap_f64"], _float_interval_cases(ctx.rng, ctx.budget(3000, 40000)))
+    pairs = list(_float_geom_cases(ctx.rng, ctx.budget(600, 8000)))
+    _run_float(ctx, OPS["temporal_f64"], pairs)
+    _run_float(ctx, OPS["frequency_f64"], pairs)
+    _run_float(ctx, OPS["is_in_clip_f64"], _float_clip_cases(ctx.rng, ctx.budget(1000, 12000)))
 
 
 def search(ctx, failures):
-    """a tie or correspondence broke: run the widest grids on the affected operations"""
+    """a tie or correspondence broke: run the widest grids on the affected operations, exact and binary64"""
     ops = {f.extra.get("op") or f.op for f in failures}
     if "intervals_overlap" in ops or not ops & set(OPS):
         ctx.run_cases(OPS["intervals_overlap"], _grid_interval_cases(4))
-    pairs = list(_geom_pair_cases(ctx.rng, 30))
+    ctx.run_cases(OPS["intervals_overlap"], _typed_interval_cases())
+    pairs = list(_geom_pair_cases(ctx.rng, 30)) + list(_geom_boundary_cases(ctx.rng, 6))
     ctx.run_cases(OPS["temporal"], pairs)
     ctx.run_cases(OPS["frequency"], pairs)
     ctx.run_cases(OPS["is_in_clip"], _clip_cases(ctx.rng, 300))
+    _run_float(ctx, OPS["intervals_overlap_f64"], _float_interval_cases(ctx.rng, 20000))
+    fp = list(_float_geom_cases(ctx.rng, 3000))
+    _run_float(ctx, OPS["temporal_f64"], fp)
+    _run_float(ctx, OPS["frequency_f64"], fp)
+    _run_float(ctx, OPS["is_in_clip_f64"], _float_clip_cases(ctx.rng, 6000))
